@@ -35,6 +35,8 @@ def inputs_of(rec):
     if rec["lang"] == "wa":
         out.append(("in-func", b"func main {\n\t" + spaced + b"\n}\n"))
         out.append(("in-global", b"global g = " + spaced + b"\n\nfunc main {\n}\n"))
+        out.append(("in-import-line", b"import (" + b"; ".join(bs) + b")"))
+        out.append(("in-import-group", b"import (\n\t" + b"\n\t".join(bs) + b"\n)\n\nfunc main {\n}\n"))
     elif rec["lang"] == "wz":
         out.append(("in-func", "函数·主控:\n\t".encode() + spaced + "\n完毕\n".encode()))
     elif rec["lang"] == "wat":
@@ -88,9 +90,9 @@ def run_crash(h, cases):
 def run(chk):
     h = common.go_build("front")
     thorough = chk.tier == "thorough"
-    chk.assume("inputs: every token string of length <= %d over the four alphabets of WaFront.tla, each spaced, tight, repeated 12 times and inside a well-formed frame (function body, global initialiser, module, function of a module, text section), under the file name of its language "
+    chk.assume("inputs: every token string of length <= 2 over the four alphabets of WaFront.tla%s, each spaced, tight, repeated 12 times and inside a well-formed frame (function body, global initialiser, import group on one line and on several lines, module, function of a module, text section), under the file name of its language "
                "(assembly: x64 .wa.s and loong64 .wz.s); arbitrary byte strings beyond these alphabets are not enumerated; a hang is a call that does not return within 10 s (60 s for BuildFile, which compiles the runtime library when the text parses)"
-               % (3 if thorough else 2))
+               % (" and of length 3 over their cores" if thorough else ""))
     res = common.run_tlc("front", "WaFront", "front3.cfg" if thorough else "front2.cfg", collect_prefix='<<"T"', timeout=3000)
     if res.violated:
         raise MachineryError("WaFront violates " + res.violated)
